@@ -59,7 +59,7 @@ def run(ctx):
         fs, _, _ = A.fn_script(ctx, 'io_loop::Inner::seal_writes')
         r.eq('seal_writes:seals-outbuf', fs, ['serialize::SealableOutputBuffer::seal(self.outbuf)'] if False else fs, ctx.site('io_loop::Inner::seal_writes'))
         evs, _ = ctx.events('io_loop::Inner::seal_writes')
-        r.check('seal_writes:calls-seal', any(e.kind == 'call' and S.show(e.term) == 'serialize::SealableOutputBuffer::seal(self.outbuf)' for e in evs), ctx.site('io_loop::Inner::seal_writes'))
+        r.check('seal_writes:calls-seal', any(e.kind == 'call' and S.show(e.term) == 'serialize::SealableOutputBuffer::seal(self.outbuf)' and S.unconditional(e, evs) for e in evs), ctx.site('io_loop::Inner::seal_writes'))
 
     with ctx.rule('R08.2', 'the seal gates every producer of SealableOutputBuffer; sealed is only ever set; buffer private', floor=8) as r:
         SB = 'serialize::SealableOutputBuffer::'
@@ -142,6 +142,10 @@ def run(ctx):
 
     with ctx.rule('R08.7', "Connection::close reports the I/O thread's result (the server's close) before its own", floor=4) as r:
         A.include(ctx, r, 'c05', 'R05.5')
+
+    with ctx.rule('R08.8', 'the next call on any channel reads the queued close reason: one send path, error queue read first (shared with C09 / C13)', floor=8) as r:
+        A.include(ctx, r, 'c09', 'R09.3')
+        A.include(ctx, r, 'c13', 'R13.3', pick=('same-fifo',))
 
     with ctx.rule('R08.6', "EOF behind the server's CloseOk is the normal end of a client-initiated close", floor=2) as r:
         fnp = 'io_loop::IoLoop::handle_steady_event'
